@@ -187,32 +187,32 @@ fn path(rng: &mut Rng, hostile: bool) -> DpPath {
         7 => std_path(rng, &[63, 1], 0, 63),
         // hostile: unrepresentable or invalid structures
         8 => { let shape: &[usize] = *rng.pick(&[&[63usize, 12][..], &[40, 30, 5], &[64], &[63, 16, 1], &[0], &[2, 0], &[]]);
-               let total: usize = shape.iter().sum(); let ch = *rng.pick(&[0usize, 63, 64, 70, total.saturating_sub(1), total]); std_path(rng, shape, *rng.pick(&[0u8, 1, 2, 3, 4]), ch as u8) }
+               let total: usize = shape.iter().sum(); let ch = *rng.pick(&[0usize, 63, 64, 70, total.saturating_sub(1), total]); { let ci = *rng.pick(&[0u8, 1, 2, 3, 4]); std_path(rng, shape, ci, ch as u8) } }
         9 => DpPath::Unsupported { path_type: *rng.pick(&[PathType::Other(3), PathType::Scion, PathType::Empty, PathType::OneHop, PathType::Other(1)]), data: vec![1; *rng.pick(&[0usize, 4, 32, 36])] },
         10 => DpPath::Unsupported { path_type: PathType::Other(99), data: vec![1; *rng.pick(&[1usize, 2, 985, 988, 1000])] },
-        _ => std_path(rng, &[63, 16], 0, *rng.pick(&[6u8, 70, 78])),
+        _ => { let ch = *rng.pick(&[6u8, 70, 78]); std_path(rng, &[63, 16], 0, ch) }
     }
 }
 fn data(rng: &mut Rng, n: usize) -> Vec<u8> { let a = rng.below(256) as u8; let mut v = vec![a; n]; if n > 0 { v[0] = 0x42; let l = n - 1; v[l] = v[l].wrapping_add(1); } v }
 fn payload(rng: &mut Rng, kind: u64, hostile: bool) -> Pl {
     let sizes: &[usize] = if hostile { &[0, 1, 65526, 65527, 65528, 65529, 65535, 65536, 65537, 131072] } else { &[0, 1, 2, 3, 7, 8, 64, 1200, 1500, 9000, 65000] };
     match kind {
-        0 => Pl::Raw(data(rng, *rng.pick(sizes))),
-        1 => Pl::Udp(UdpDatagram::new(*rng.pick(&[0u16, 53, 30041, 65535]), *rng.pick(&[0u16, 443, 65535]), data(rng, *rng.pick(sizes)))),
-        _ => { let q = |rng: &mut Rng| data(rng, *rng.pick(&[0usize, 1, 40, 1100, 1180, 1200, 1232, 2000]));
+        0 => Pl::Raw({ let n_ = *rng.pick(sizes); data(rng, n_) }),
+        1 => Pl::Udp(UdpDatagram::new(*rng.pick(&[0u16, 53, 30041, 65535]), *rng.pick(&[0u16, 443, 65535]), { let n_ = *rng.pick(sizes); data(rng, n_) })),
+        _ => { let q = |rng: &mut Rng| { let n_ = *rng.pick(&[0usize, 1, 40, 1100, 1180, 1200, 1232, 2000]); data(rng, n_) };
             Pl::Scmp(match rng.below(if hostile { 12 } else { 10 }) {
                 0 => ScmpDestinationUnreachable::new((rng.below(8) as u8).into(), q(rng)).into(),
                 1 => ScmpPacketTooBig::new(*rng.pick(&[0u16, 1280, 65535]), q(rng)).into(),
                 2 => ScmpParameterProblem::new((*rng.pick(&[0u8, 1, 16, 53, 66, 200])).into(), rng.below(65536) as u16, q(rng)).into(),
                 3 => ScmpExternalInterfaceDown::new(ia(rng), *rng.pick(&[0u16, 7, 65535]), q(rng)).into(),
                 4 => ScmpInternalConnectivityDown::new(ia(rng), 1, *rng.pick(&[2u16, 65535]), q(rng)).into(),
-                5 => ScmpEchoRequest::new(rng.below(65536) as u16, 7, data(rng, *rng.pick(&[0usize, 1, 9, 1500]))).into(),
-                6 => ScmpEchoReply::new(1, rng.below(65536) as u16, data(rng, *rng.pick(&[0usize, 3, 64]))).into(),
+                5 => ScmpEchoRequest::new(rng.below(65536) as u16, 7, { let n_ = *rng.pick(&[0usize, 1, 9, 1500]); data(rng, n_) }).into(),
+                6 => ScmpEchoReply::new(1, rng.below(65536) as u16, { let n_ = *rng.pick(&[0usize, 3, 64]); data(rng, n_) }).into(),
                 7 => ScmpTracerouteRequest::new(3, 4).into(),
                 8 => ScmpTracerouteReply::new(5, 6, ia(rng), *rng.pick(&[0u16, 9, 65535])).into(),
-                9 => ScmpMessage::Unknown(ScmpMessageUnknown::new(*rng.pick(&[0u8, 3, 7, 100, 127, 132, 200, 255]), rng.below(256) as u8, data(rng, *rng.pick(&[0usize, 4, 33])))),
-                10 => ScmpMessage::Unknown(ScmpMessageUnknown::new(*rng.pick(&[1u8, 128, 130, 5]), 0, data(rng, *rng.pick(&[0usize, 16, 24])))),
-                _ => ScmpEchoRequest::new(1, 1, data(rng, *rng.pick(&[65527usize, 65528, 70000]))).into(),
+                9 => ScmpMessage::Unknown(ScmpMessageUnknown::new(*rng.pick(&[0u8, 3, 7, 100, 127, 132, 200, 255]), rng.below(256) as u8, { let n_ = *rng.pick(&[0usize, 4, 33]); data(rng, n_) })),
+                10 => ScmpMessage::Unknown(ScmpMessageUnknown::new(*rng.pick(&[1u8, 128, 130, 5]), 0, { let n_ = *rng.pick(&[0usize, 16, 24]); data(rng, n_) })),
+                _ => ScmpEchoRequest::new(1, 1, { let n_ = *rng.pick(&[65527usize, 65528, 70000]); data(rng, n_) }).into(),
             }) }
     }
 }
@@ -221,12 +221,18 @@ fn model(rng: &mut Rng, hostile: bool) -> Model {
     let nh = match kind { 1 => ProtocolNumber::Udp, 2 => ProtocolNumber::Scmp,
         _ => if hostile && rng.chance(1, 3) { ProtocolNumber::Other(*rng.pick(&[17u8, 202, 6])) } else { *rng.pick(&[ProtocolNumber::Tcp, ProtocolNumber::Other(0), ProtocolNumber::Other(255), ProtocolNumber::Bfd, ProtocolNumber::Hbh]) } };
     let flow = if hostile && rng.chance(1, 4) { *rng.pick(&[0x10_0000u32, u32::MAX]) } else { *rng.pick(&[0u32, 1, 0xf_ffff, 0xabcde]) };
+    let tc = *rng.pick(&[0u8, 1, 0xb8, 255]);
+    let (dia, sia) = (ia(rng), ia(rng));
+    let hd = hostile && rng.chance(1, 3); let dh = host(rng, hd);
+    let hs_ = hostile && rng.chance(1, 3); let shh = host(rng, hs_);
+    let hp = hostile && rng.chance(1, 2); let pa = path(rng, hp);
     let h = ScionPacketHeader {
-        common: CommonHeader { traffic_class: *rng.pick(&[0u8, 1, 0xb8, 255]), flow_id: flow, next_header: nh },
-        address: AddressHeader { dst_ia: ia(rng), src_ia: ia(rng), dst_host_addr: host(rng, hostile && rng.chance(1, 3)), src_host_addr: host(rng, hostile && rng.chance(1, 3)) },
-        path: path(rng, hostile && rng.chance(1, 2)),
+        common: CommonHeader { traffic_class: tc, flow_id: flow, next_header: nh },
+        address: AddressHeader { dst_ia: dia, src_ia: sia, dst_host_addr: dh, src_host_addr: shh },
+        path: pa,
     };
-    Model { header: h, pl: payload(rng, kind, hostile && rng.chance(1, 3)) }
+    let hpl = hostile && rng.chance(1, 3);
+    Model { header: h, pl: payload(rng, kind, hpl) }
 }
 
 fn human_model(m: &Model) -> String {
